@@ -1232,10 +1232,15 @@ def _run_total_hist(case, acc):
                           p_sparse=0.6, max_comps=3)
     opts = kit.rand_opts(rng, method='fd', small_steps=False)
     opts.pop('minimum_step', None)            # approx_totals has no minimum_step argument
-    if rng.random() < 0.75:
+    if rng.random() < 0.6:
         opts['step_calc'] = rng.choice(['rel', 'rel_avg', 'rel_legacy', 'rel_element'])
     rel = (opts.get('step_calc') or 'abs') != 'abs'
     opts['step'] = rng.choice([None, 1e-6, 1e-7, 3e-7]) if rel else rng.choice([None, 1e-4, 1e-5, 1e-6])
+    if rng.random() < 0.3:
+        # the fd defaults, spelled out or not (what a total coloring of an approximated model uses in any case)
+        opts = {'method': 'fd', 'form': rng.choice([None, 'forward']), 'step': rng.choice([None, 1e-6]),
+                'step_calc': rng.choice([None, 'abs'])}
+        rel = False
     # (relative steps: |x| <= 2e3, so h stays <= ~5e-3 and the local derivative bounds of the reference hold)
     hp, kinds = _hist_points(spec, rng, 3, max_exp=3.0)
     _apply_points(spec, hp[0])
@@ -1352,8 +1357,9 @@ def _run_total_hist(case, acc):
             used_any = used_any or used
             # white box (classification only): the options the model-level approximation really uses now
             eff = dict(prob.model._owns_approx_jac_meta)
-            declared = {k: v for k, v in opts.items() if v is not None and k != 'method'}
-            dropped = any(eff.get(k) != v for k, v in declared.items())
+            norm = lambda o_: (o_.get('step') or kit.FD_DEFAULT_STEP, o_.get('form') or 'forward',   # noqa: E731
+                               o_.get('step_calc') or 'abs')
+            dropped = norm(eff) != norm(opts)
             # white box (classification only): the step the colored approximation applies to EVERY column (the scheme
             # keeps one data tuple for all colors; entry 0 of it is used)
             h_used, now_, old_ = None, set(), set()
